@@ -25,22 +25,23 @@ var vocab = map[string][]string{
 }
 
 type GenCfg struct {
-	MaxDepth    int  // nesting depth of embedded objects
-	Density     int  // percent chance that a field is set
-	Zones       bool // instants with non-UTC zones
-	Nanos       bool // instants with nanoseconds
-	ValueNodes  bool // embedded objects also by value (not only by pointer)
-	NilMembers  bool // nil entries inside lists
-	Links       bool // Link objects in item positions
-	EmptyTypes  bool // embedded objects may lack type (and id)
-	Negatives   bool // negative numbers / durations
-	MultiLang   bool // more than one language value
-	RepeatLang  bool // multi-language values may repeat a language reference (what a JSON array of strings decodes to)
+	MaxDepth     int  // nesting depth of embedded objects
+	Density      int  // percent chance that a field is set
+	Zones        bool // instants with non-UTC zones
+	GobZones     bool // … restricted to offsets encoding/gob (time.MarshalBinary) round-trips
+	Nanos        bool // instants with nanoseconds
+	ValueNodes   bool // embedded objects also by value (not only by pointer)
+	NilMembers   bool // nil entries inside lists
+	Links        bool // Link objects in item positions
+	EmptyTypes   bool // embedded objects may lack type (and id)
+	Negatives    bool // negative numbers / durations
+	MultiLang    bool // more than one language value
+	RepeatLang   bool // multi-language values may repeat a language reference (what a JSON array of strings decodes to)
 	SubSecondDur bool
-	Only        map[string]bool // when set: only these fields are ever generated
-	Force       map[string]bool // fields generated with probability ForcePct (default 100) when the type has them
-	ForcePct    int
-	counter     int
+	Only         map[string]bool // when set: only these fields are ever generated
+	Force        map[string]bool // fields generated with probability ForcePct (default 100) when the type has them
+	ForcePct     int
+	counter      int
 }
 
 func (g *GenCfg) nextID(kind string) string {
@@ -112,6 +113,17 @@ func (g *GenCfg) genTime(r *RNG) []interface{} {
 		off = (r.Intn(27) - 12) * 3600
 		if r.Chance(20) {
 			off += 1800
+		}
+		// local mean time: an offset with a seconds component (Amsterdam +00:19:32 until 1937, Monrovia
+		// -00:44:30 until 1972; any date through a fixed zone) — RFC 3339 cannot spell it
+		if r.Chance(15) {
+			off += r.Intn(3599) - 1799
+			// the standard library's time.UnmarshalBinary reads the seconds of a NEGATIVE offset as an unsigned
+			// byte (-00:00:41 comes back as +00:03:35; the instant itself is kept): not the library's code, so
+			// campaigns whose values travel through gob keep to offsets the standard library round-trips
+			if g.GobZones && off < 0 && off%60 != 0 {
+				off -= off % 60
+			}
 		}
 	}
 	return []interface{}{sec, nsec, off}
@@ -271,6 +283,10 @@ func (g *GenCfg) genNode(r *RNG, goType string, depth int, embedded bool) T {
 			for _, en := range []string{"UploadMedia", "OauthAuthorizationEndpoint", "OauthTokenEndpoint", "ProvideClientKey", "SignClientKey", "SharedInbox"} {
 				if r.Chance(40) {
 					m[en] = T{"iri": g.nextID("endpoint")}
+					// an endpoint given as an embedded object (a sharedInbox collection by value)
+					if depth > 0 && r.Chance(15) {
+						m[en] = g.genItem(r, depth-1)
+					}
 				}
 			}
 			f[name] = T{"rec": m}
